@@ -95,7 +95,7 @@ def gen_rewriter_case(rng, tool=None, **kw):
         if snippet.startswith(("#!", "# licence", '"""', "'''", "b'", "from __future__")) or r < 0.4:
             cand = snippet if r < 0.7 else snippet + text
         else:
-            cand = (text if text.endswith("\n") else text + "\n") + snippet
+            cand = (text if text.endswith(("\n", "\r")) else text + "\n") + snippet
         try:
             compile(cand if cand.endswith("\n") else cand + "\n", "<scn>", "exec", dont_inherit=True)
             text = cand
@@ -122,7 +122,7 @@ def gen_rewriter_case(rng, tool=None, **kw):
                     look = old.replace(".", ch)
                     extra.append(rng.choice(["# see %s\n", "s_%d = '%s'\n" % (len(extra), "%s"), "v_%d = 1  # %s\n" % (len(extra), "%s")]) % look)
                 extra.append("%s_tail = x%s = 0\n" % (old.replace(".", "_"), old.replace(".", "")))
-            cand = (text if text.endswith("\n") else text + "\n") + "".join(extra)
+            cand = (text if text.endswith(("\n", "\r")) else text + "\n") + "".join(extra)
             try:
                 compile(cand, "<na>", "exec", dont_inherit=True)
                 if not any(_re.search(r"\b%s\b" % _re.escape(o), cand) for o in mp):
@@ -175,6 +175,31 @@ def run_tool(case, text=None):
     else:
         raise ValueError(tool)
     return out.text.joined
+
+
+def layout_family(text):
+    """Input layouts on which listed findings of the statement splitter manifest (C01/C03/C10):
+       'cr'     a lone carriage return used as a line break (FileText splits on LF only);
+       'bsline' a backslash-newline directly in front of a statement's first token (a line holding only a
+                backslash, or '; \\' at the end of a line);
+       None     otherwise."""
+    if re.search(r"\r(?!\n)", text):
+        return "cr"
+    if re.search(r"(^|\n)[ \t\f]*\\\r?\n", text) or re.search(r";[ \t]*\\\r?\n", text):
+        return "bsline"
+    return None
+
+
+def fam_lone_cr(case, failure):
+    return layout_family(case["text"]) == "cr"
+
+
+def fam_backslash_line(case, failure):
+    return layout_family(case["text"]) == "bsline"
+
+
+def fam_deep_nesting(case, failure):
+    return "RecursionError" in (str(failure.get("err")) + str(failure.get("msg")) + str(failure.get("exc")))
 
 
 CLI = {"reformat": "reformat-imports", "tidy": "tidy-imports", "replace_star": "replace-star-imports",
